@@ -132,8 +132,28 @@ AuditOK(d, commits, undone, final) ==
      /\ final.tasks = d.tasks /\ final.ops = d.ops
      /\ WSExactlyPending(final) /\ WSNoTrailingGap(final) /\ WSStable(d, final)
 
+(* what a handle read in one transaction while the others were working: only *)
+(* complete transactions -- the operations are a sequence of whole committed *)
+(* batches (each begins with its undo point), and they replay to the tasks   *)
+SnapshotOK(d, commits) ==
+  LET ops == d.ops
+      okc == {i \in DOMAIN commits : commits[i].ok}
+      WholeAt(i) == \E c \in okc :
+                      LET n == Len(commits[c].ops)
+                      IN /\ i + n - 1 <= Len(ops)
+                         /\ SubSeq(ops, i, i + n - 1) = commits[c].ops
+                         /\ IF i + n <= Len(ops) THEN IsP(ops[i + n]) ELSE TRUE
+  IN /\ ApplyAll(EmptyDb, ToSync(ops)) = d.tasks
+     /\ IF ops = <<>> THEN TRUE ELSE IsP(ops[1])
+     /\ \A i \in DOMAIN ops : IsP(ops[i]) => WholeAt(i)
+     /\ \A i, j \in DOMAIN d.ws : (i # j /\ d.ws[i] # NoVal) => d.ws[i] # d.ws[j]
+
 TAudit ==
   /\ IsEvent("Audit") /\ JDbOK(E.db) /\ JDbOK(E.final)
+  /\ \A i \in DOMAIN E.snaps : JDbOK(E.snaps[i])
+  /\ \A i \in DOMAIN E.snaps :
+        TRUE = SnapshotOK(JDb(E.snaps[i]),
+                 [k \in DOMAIN E.commits |-> [ops |-> JOps(E.commits[k].ops), ok |-> E.commits[k].ok]])
   /\ \A i \in DOMAIN E.commits : JOpsOK(E.commits[i].ops)
   /\ \A i \in DOMAIN E.undone : JOpsOK(E.undone[i])
   \* (compared with TRUE so that TLC evaluates the predicate as an expression: at the level
